@@ -20,7 +20,7 @@ cp $SRC/zz_seed_demo_test.go $WT/$DEMO_DIR/zz_seed_demo_test.go
 (cd $WT && NS timeout 600 go test -vet=off -count=1 -run 'Seed' ./$DEMO_DIR/ > $OUT.demo_base.log 2>&1); echo "demo_without_patch_rc=$?"
 rm -f $WT/$DEMO_DIR/zz_seed_demo_test.go
 # 2. apply
-if git -C $WT apply $SRC/patch.diff 2>/dev/null; then echo "apply=clean"; elif git -C $WT apply --3way $SRC/patch.diff 2>$OUT.apply.err; then echo "apply=3way"; else echo "apply=FAILED"; cat $OUT.apply.err | head -5; exit 0; fi
+PATCH=$SRC/patch.diff; [ -f $SRC/patch.rebased.diff ] && PATCH=$SRC/patch.rebased.diff; if git -C $WT apply $PATCH 2>/dev/null; then echo "apply=clean($(basename $PATCH))"; elif git -C $WT apply --3way $SRC/patch.diff 2>$OUT.apply.err; then echo "apply=3way"; else echo "apply=FAILED"; cat $OUT.apply.err | head -5; exit 0; fi
 git -C $WT diff > $OUT.rebased.diff
 (cd $WT && go build ./... > $OUT.build.log 2>&1); echo "build_rc=$?"
 # 3. suite with the patch (cluster: the two 10ms-sleep tests are flaky on the untouched tree under load and are skipped)
